@@ -33,7 +33,7 @@ ASSUMPTIONS = [
 @st.composite
 def cases(draw, tier="quick"):
     fn = draw(st.sampled_from(["remap_uri", "rewire"]))
-    recs = draw(S.record_sets(delimiter=":", min_records=1, max_records=5, max_syn=4, unicode_arm=False))
+    recs = draw(S.record_sets(delimiter=":", repeat_synonyms=True, min_records=1, max_records=5, max_syn=4, unicode_arm=False))
     ups = S.all_uri_prefixes(recs)
     ps = S.all_prefixes(recs)
     key_pool = (ups if fn == "remap_uri" else ps) + ["zz", "yy/"]
@@ -60,7 +60,7 @@ def cases(draw, tier="quick"):
 
 @st.composite
 def transitive_cases(draw, tier="quick"):
-    recs = draw(S.record_sets(delimiter=":", min_records=1, max_records=3, max_syn=2, unicode_arm=False))
+    recs = draw(S.record_sets(delimiter=":", repeat_synonyms=True, min_records=1, max_records=3, max_syn=2, unicode_arm=False))
     pool = S.all_uri_prefixes(recs) + ["a/", "b/", "c/"]
     keys = draw(st.lists(st.sampled_from(pool), unique=True, min_size=1, max_size=3))
     mapping = [[k, draw(st.sampled_from(pool + ["d/", "e/"]))] for k in keys]
